@@ -451,3 +451,46 @@ def reader_sub_reader_limits(u: U):
         u.check("C19.sub.header_limits_inherited", same("max_field_size", lim["_max_field_size"]) and same("max_headers", lim["_max_headers"]),
                 "a nested multipart reads its part headers under the configured max_field_size / max_headers, not under the "
                 "defaults", witness={"kwargs": sorted(kw)})
+
+
+# ---------------------------------------------------------------------------------------------------------------
+# reader: which parts get the base64 quartet alignment
+
+
+@unit("C19", "reader.base64_dispatch", functions=[f"{MP}:BodyPartReader.read_chunk"])
+def reader_base64_dispatch(u: U):
+    """read_chunk aligns its chunks to base64 quartets (every chunk is decoded on its own) exactly for the parts whose
+    Content-Transfer-Encoding is base64 in ANY letter case - the value is case-insensitive (RFC 2045 6.1) and both the
+    writer and BodyPartReader._decode_content_transfer treat it so: a part announced as 'Base64' is written base64-encoded
+    and must be read back with the same care."""
+    from multidict import CIMultiDict
+
+    cte = (None, "base64", "Base64", "BASE64", "quoted-printable", "binary")[u.choose(6, "content_transfer_encoding")]
+    hdrs_ = CIMultiDict()
+    if cte is not None:
+        hdrs_["Content-Transfer-Encoding"] = cte
+    aligned = []
+    fresh = u.bytes("fresh")
+
+    def align(self, chunk, size):
+        aligned.append((chunk, size))
+        return chunk
+
+    class _Content:
+        def readline(self):
+            return SAwait(result=b"\r\n", name="readline")
+
+    r = u.obj("BodyPartReader", {"_at_eof": False, "_b64_carry": b"", "_boundary_len": 6, "_length": None,
+                                 "_read_bytes": 0, "headers": hdrs_, "_content": _Content()},
+              {"_align_base64_chunk": align,
+               "_read_chunk_from_stream": lambda self, n: SAwait(result=fresh, name="from_stream"),
+               "_read_chunk_from_length": lambda self, n: SAwait(result=fresh, name="from_length")},
+              shared=False, real=(MP, "BodyPartReader"),
+              init=(MP, "BodyPartReader.__init__", (b"--b", hdrs_, "CONTENT"), {}))
+    f = u.load(MP, "BodyPartReader.read_chunk")
+    out = u.call(f, r, 8192)
+    u.check("C19.b64.dispatch.total", out.ok, repr(out))
+    is_b64 = cte is not None and cte.lower() == "base64"
+    u.check("C19.b64.dispatch.aligned_iff_base64_any_case", (len(aligned) == 1) == is_b64,
+            "chunks of a part are aligned to base64 quartets exactly when its Content-Transfer-Encoding is base64, "
+            f"compared case-insensitively (header value {cte!r})", witness={"content_transfer_encoding": cte})
